@@ -57,3 +57,13 @@ func verifLexTEXT(s string) int {
 	}
 	return best
 }
+
+// VerifTextLiteralValue runs the real visitor over the parse tree of a TEXT
+// token and returns the string the literal denotes.
+func VerifTextLiteralValue(lit string) string {
+	v := &visitor{}
+	return v.VisitTextLiteral(verifTextLiteral(lit)).(*TextLiteral).Value.Native()
+}
+
+// VerifLexTEXT exposes the TEXT recogniser to harnesses in other packages.
+func VerifLexTEXT(s string) int { return verifLexTEXT(s) }
